@@ -191,7 +191,9 @@ Definition spec_read_ok (m : smap) (sc : list own) (r : robs) (c_scan c_get : N)
   flag (forallb (fun g => negb (in_scope sc (fst g)) || ob_eqb (snd g) (sm_get m (fst g))) (r_gets r)) c_get.
 
 Definition d11_files (w : world) : list fname :=
-  flat_map (fun x => match x_state x with Dropped => map o_name (filter (cleanup_deletes w x) (x_objs x)) | _ => [] end) (g_dbs w).
+  flat_map (fun x => match x_state x with
+                     | Dropped => map o_name (filter (fun o => negb (o_fromdoc o) && cleanup_deletes w x o) (x_objs x))
+                     | _ => [] end) (g_dbs w).
 
 Definition check_step (st : world * spec) (so : op * obs) : (world * spec) * list N :=
   let '(w, p) := st in
